@@ -31,6 +31,17 @@ TWINS = {
              'function top(k: number): any { return [[k], mid(k), { c: [k, k] }, "s" + k]; }\nconst t = top(3); LOG([t[0], t[1][0], await t[1][1], t[1][2], t[2], t[3]]);', [3]),
  "args_in_flight": ('function leaf(k: number): any { return order({ v: k }); }\nfunction join(a: any, b: any, c: any, d: any): any { return [a, b, c, d]; }\n'
              'const r = join({ first: [1] }, leaf(4), [{ third: 3 }], leaf(5)); LOG([r[0], await r[1], r[2], await r[3]]);', [4, 5]),
+ "caller_block_scope": ('function helper(k: number): any { return order({ v: k }); }\nfunction f(k: number): any { let x = "outer"; let r; { let x = "inner"; r = helper(k); x += "!"; } return [r, x]; }\n'
+             'const [r, x] = f(1); LOG([await r, x]);', [1]),
+ "caller_catch_scope": ('function helper(k: number): any { return order({ v: k }); }\nfunction f(k: number): any { let state = "fn"; let r; try { let state = "try"; r = helper(k); throw new Error(state); } catch (e: any) { state += "+" + e.message; } finally { state += "+fin"; } return [r, state]; }\n'
+             'const [r, st] = f(2); LOG([await r, st]);', [2]),
+ "caller_loop_scope": ('function helper(k: number): any { return order({ v: k }); }\nfunction f(): any { let tag = "outer"; const rs: any[] = []; for (const tag of ["a", "b"]) { const inner = tag + tag; rs.push(helper(inner.length)); } for (let i = 0; i < 2; i++) { let tag = i; rs.push(helper(tag)); } switch (rs.length) { case 4: { let tag = "sw"; rs.push(helper(9)); } } return [rs, tag]; }\n'
+             'const [rs, tag] = f(); const vs = []; for (const r of rs) vs.push(await r); LOG([vs, tag]);', [2, 2, 0, 1, 9]),
+ "caller_scope_two_levels": ('function leaf(k: number): any { return order({ v: k }); }\nfunction mid(k: number): any { let m = "mid"; { let m = "mid-block"; const r = leaf(k); return [r, m, () => m]; } }\n'
+             'function top(k: number): any { let t = "top"; let out; { let t = "top-block"; out = mid(k); t += "!"; } return [...out, t]; }\nconst [r, m, fm, t] = top(3); LOG([await r, m, fm(), t]);', [3]),
+ "native_callback_batch": ('const rs = [{ v: 1 }, { v: 2 }, { v: 3 }].map(order as any);\nLOG([await rs[0], await rs[1], await rs[2], rs.length]);', [1, 2, 3]),
+ "native_callback_out_of_order": ('const rs = [{ v: 1 }, { v: 2 }, { v: 3 }, { v: 4 }].map(order as any);\nconst c = await rs[2]; const a = await rs[0]; const d = await rs[3]; const b = await rs[1]; LOG([a, b, c, d]);', [1, 2, 3, 4]),
+ "native_callback_then_blocking": ('const rs = [{ v: 1 }, { v: 2 }].forEach(order as any);\nconst x = order({ v: 3 }); LOG([rs === undefined, await x]); const y = order({ v: 4 }); LOG(await y);', [1, 2, 3, 4]),
  "default_param_and_spread": ('function f(a: any = order({ v: 5 }), ...rest: any[]): any { return [a, rest.length]; }\nconst [a, n] = f(); LOG([await a, n]); const xs = [...[1, 2], order({ v: 6 })]; LOG([xs.length, await xs[2]]);', [5, 6]),
 }
 
@@ -80,7 +91,10 @@ def main(tier):
         twin = 'import { LOG, ERR } from "verif:host";\nconst order = (p: any): any => p.v;\ntry {\n' + body + '\n} catch (e) { ERR(e); }\n'
         resp = [{"k": "val", "v": a} for a in answers]
         twjobs.append({"id": len(twjobs), "source": twin, "resp": [], "mode": "immediate", "path": "/p/main.ts", "max_steps": 200000}); twmeta.append((tag, "twin"))
-        for mode, gc in (("immediate", None), ("deferred", None), ("spurious", None), ("deferred", 1)):
+        for mode, gc in (("immediate", None), ("deferred", None), ("spurious", None), ("deferred", 1), ("batch", None)):
+            # orders issued by a native caller do not block: their answers are picked up by later steps, which only the
+            # "batch" schedule waits for (an empty suspension is a deadlock for "immediate")
+            if mode == "immediate" and tag.startswith("native_callback"): continue
             j = {"id": len(twjobs), "source": real, "resp": resp, "mode": mode, "path": "/p/main.ts", "max_steps": 200000}
             if gc: j["gc"] = gc
             twjobs.append(j); twmeta.append((tag, mode + ("/gc1" if gc else "")))
@@ -93,12 +107,12 @@ def main(tier):
         if how == "twin": twin_of[tag] = ev; continue
         ntw += 1
         if ev == twin_of[tag] and not twgot[j["id"]].get("stale"): continue
-        feat = {"kind": "transparency-twin", "template": tag, "schedule": how.split("/")[0]}
+        feat = {"kind": "transparency-twin", "template": tag, "schedule": how.split("/")[0], "got": "|".join(ev)}
         hit = next((f for f in c07f if vlib.key_matches(f["key"], feat)), None)
         if hit: c.known_hit.setdefault(hit["id"], {"finding": hit, "count": 0})["count"] += 1; continue
         c.report(feat, {"source": j["source"], "schedule": how, "with_orders": ev, "without_suspension": twin_of[tag], "stale": twgot[j["id"]].get("stale")},
                  "suspension is not transparent for [%s] under schedule %s: with order() as a plain function %s, with real orders %s\n%s" % (tag, how, twin_of[tag], ev, j["source"]))
-    log("transparency twins: %d templates x 4 schedules compared with the run that never suspends" % len(TW))
+    log("transparency twins: %d templates x 5 schedules compared with the run that never suspends" % len(TW))
     c.cov["transparency_twin_runs"] = ntw
     # ---- values through combinators (Orders.tla): what `await Promise.all / race` yields must be the inputs' values in input
     # order whatever the host's timing: ONE script each, ALL host histories (plain answers, promises settled before / after the call)
